@@ -228,3 +228,53 @@ backoff_harness!(c09_q_backoff_vs_spec_n5, 5);
 // The receive-timeout ladder sum (`retransmission_timeout_ms` = sum of five maximum-jitter steps)
 // is NOT decided: equivalence of two chains of 64-bit multiply/divide circuits finished in no back
 // end (CaDiCaL, cvc5, cvc5 bv-as-int, z3 4.8 / 5.1: 600 s each). Stated as outside in DESIGN.md.
+
+/// Two ends composed (sender A, receiver B; the network delivers each datagram once): A's
+/// reliable message is acknowledged by B's next message of any kind on the exchange - with A's
+/// counter - and that acknowledgement, and only that, ends A's retransmissions; B's own reliable
+/// reply is then the one thing A owes an acknowledgement for.
+#[cfg_attr(kani, kani::proof)]
+#[cfg_attr(kani, kani::unwind(8))]
+#[cfg_attr(kani, kani::stub(embassy_time::Instant::now, crate::verif_support::stub_instant_now))]
+#[cfg_attr(not(kani), test)]
+fn c09_q_two_ends_ack_roundtrip() {
+    let mut a = ReliableMessage::new();
+    let mut b = ReliableMessage::new();
+    // A sends message `ca` reliably
+    let ca = any_u32();
+    let mut plain_a = PlainHdr::new();
+    plain_a.ctr = ca;
+    let mut proto_a = ProtoHdr::new();
+    proto_a.set_reliable();
+    vok!(a.pre_send(&plain_a, &mut proto_a, None, None), "first-send");
+    vassert!(a.retrans.is_some() && proto_a.get_ack().is_none(), "ROLE:reliable-send-remembers-its-counter");
+    // B receives it
+    vok!(b.post_recv(&plain_a, &proto_a), "delivery");
+    vassert!(b.ack.is_some(), "ROLE:received-reliable-message-schedules-an-ack");
+    // B answers (reliably or not) with its own counter `cb`
+    let cb = any_u32();
+    let mut plain_b = PlainHdr::new();
+    plain_b.ctr = cb;
+    let mut proto_b = ProtoHdr::new();
+    let b_reliable = any_bool();
+    if b_reliable {
+        proto_b.set_reliable();
+    }
+    vok!(b.pre_send(&plain_b, &mut proto_b, None, None), "answer");
+    vassert!(proto_b.get_ack() == Some(ca), "ROLE:answer-acknowledges-exactly-the-received-counter");
+    // A receives the answer
+    vok!(a.post_recv(&plain_b, &proto_b), "delivery-of-answer");
+    vassert!(a.retrans.is_none(), "ROLE:matching-ack-ends-retransmission");
+    vassert!(a.ack.is_some() == b_reliable, "ROLE:ack-owed-iff-the-answer-requested-one");
+    if b_reliable {
+        vcover!(true);
+        // A's next message carries the acknowledgement of `cb`, which ends B's retransmissions
+        let mut plain_a2 = PlainHdr::new();
+        plain_a2.ctr = ca.wrapping_add(1);
+        let mut proto_a2 = ProtoHdr::new();
+        vok!(a.pre_send(&plain_a2, &mut proto_a2, None, None), "second-send");
+        vassert!(proto_a2.get_ack() == Some(cb), "ROLE:answer-acknowledges-exactly-the-received-counter");
+        vok!(b.post_recv(&plain_a2, &proto_a2), "delivery-of-second");
+        vassert!(b.retrans.is_none(), "ROLE:matching-ack-ends-retransmission");
+    }
+}
